@@ -11,6 +11,28 @@ fn main() {
     match ctx.id.as_str() {
         "C40" => c40::run(&ctx),
         "C41" => c41::run(&ctx),
+        // one-off warm-up used by /verif/setup.sh: builds dust_dds (dev profile) into the shared
+        // target dir of the generated crates so that a quick tier is one incremental build
+        "SETUP" => {
+            let r = cb::GenCrate::create("_setup", "genout_setup").and_then(|k| {
+                k.write(
+                    "src/main.rs",
+                    "#![allow(warnings)]\nmod support;\nuse dust_dds::infrastructure::type_support::DdsType;\n#[derive(Debug, Clone, PartialEq, DdsType)]\nstruct Warm { #[dust_dds(key)] a: u8 }\nfn main() { support::init(); support::dump_type(0, \"Warm\", &<Warm as dust_dds::xtypes::type_support::Type>::TYPE); }\n",
+                );
+                let b = k.build();
+                if b.ok { Ok(b.wall_s) } else { Err(format!("{:?} {}", b.diags.first(), b.tail)) }
+            });
+            match r {
+                Ok(s) => {
+                    println!("gen SETUP: dust_dds built for generated crates in {s:.1}s ({})", cb::target_dir().display());
+                    std::process::exit(0)
+                }
+                Err(e) => {
+                    eprintln!("gen SETUP failed: {e}");
+                    std::process::exit(2)
+                }
+            }
+        }
         other => {
             eprintln!("engine gen does not serve {other}");
             std::process::exit(2);
